@@ -281,7 +281,17 @@ def run(tier):
         if d is not None:
             ndiff += 1; what, first, ntok, rtok = d
             fnd.report("native-differs:" + ("token_kinds_differ" if "kinds" in what else "positions_differ" if "positions" in what else "tiling"), "source %r: %s at token %d: native %s, reference %s" % (text, what, first, ntok, rtok), {"input.sy": text}, cmd="sylt-replay tokens input.sy")
-    cov = {"states": max(1, kr["paths"]), "transitions": max(1, stats.queries + kr["feasibility_queries"]), "traces_validated_against_impl": nval,
+    # the reference lexer is built from the CURRENT token.rs (that file is the documented token set): a change of the definitions themselves is a change of
+    # the language, not something this check can call a violation - it is reported as a NOTE so that it is at least seen
+    import json as _json
+    try:
+        pinned = _json.load(open("/verif/spec/token_set_pinned.json"))["tokens"]
+        key = lambda t: (t["variant"], t["kind"], t["text"], t["priority"], t["skip"])
+        a_, b_ = set(map(key, pinned)), set(map(key, toks))
+        token_set_changes = ["removed: %s %r" % (k[0], k[2]) for k in sorted(a_ - b_, key=str)] + ["added: %s %r" % (k[0], k[2]) for k in sorted(b_ - a_, key=str)]
+    except Exception as e: token_set_changes = ["pinned token set unreadable: %s" % e]
+    for ch in token_set_changes: print("NOTE property=C17 token definitions differ from the pinned token set (spec/token_set_pinned.json): %s" % ch)
+    cov = {"states": max(1, kr["paths"]), "transitions": max(1, stats.queries + kr["feasibility_queries"]), "traces_validated_against_impl": nval, "token_definitions_changed_since_pinned": token_set_changes,
            "samples": (kr["checks"][:3] + rex[:2]), "obligations": len(kr["checks"]) + len(rex), "obligations_holding": len(kr["checks"]) + len(rex) - len(bad),
            "mir_statements": kr["steps"], "solver": stats.as_dict(), "native_disagreements": ndiff,
            "functions_encoded": ["sylt_tokenizer::string_to_tokens::{closure#0} (MIR)", "token.rs #[token]/#[regex] attributes (z3 regular languages)"],
